@@ -31,7 +31,7 @@ CLAIMED = {
          "and Python == on types identifies only equal-membership types; inference is total (termination proof of shrink). "
          "The model is tied to /repo on every run by differential testing (exhaustive small scope + seeded random multisets x 6 limits) "
          "and the property is evaluated directly on the implementation with an independent conformance oracle."),
-   ref="DESIGN.md section 4 C04, section 12",
+   ref="DESIGN.md section 4 C04, section 3",
    note=("trusted: Lean kernel + propext/Classical.choice/Quot.sound; the hand-written model (Model/Ty,Eqv,Infer) is tied to the code only by "
          "correspondence on generated cases; the order/multiplicity clause is checked on implementation and model, not yet proved (partial)"),
    technique="Lean 4 proof (structural + well-founded induction) over a hand-written model + differential correspondence check"),
@@ -182,15 +182,16 @@ CLAIMED = {
  "C11": dict(
    text=("A Lean 4 model of RenderAnnotation (to an expression tree and its text), get_imports_for_annotation and the naming of the TypedDict "
          "classes ReplaceTypedDictsWithStubs generates, with theorems about the rendering shapes (Optional iff NoneType is a member, "
-         "Tuple[()]) and that no class stub is generated for a TypedDict-free type (no_td_no_classes; with C06: none at limit 0). The property "
+         "Tuple[()]), that no class stub is generated for a TypedDict-free type (no_td_no_classes; with C06: none at limit 0) and that every name "
+         "a field of a generated TypedDict class needs is in the stub's import list (td_fields_imported). The property "
          "itself — the annotation text, evaluated with only the names the stub provides, yields the rendered type — is a stated Lean "
          "proposition (RenderedDenotes) that is NOT proved: it is evaluated directly on every generated stub (import block really executed "
          "in an empty namespace, TypedDict class stubs registered, each annotation evaluated and compared structurally). The model is tied "
-         "to /repo by comparing annotation text, import sets and generated class names. Three genuine defects of the pinned tree are open "
-         "known findings whose predicates are decided by the Lean model."),
+         "to /repo by comparing annotation text, import sets (per annotation and of a whole ModuleStub) and generated class names. Two genuine "
+         "defects of the pinned tree are open known findings whose predicates are decided by the Lean model; a third was fixed (1051a80)."),
    ref="DESIGN.md section 4 C11",
    note=("partial (weakest of the proof-level claims): Lean proves shape lemmas only; the denotation clause is a direct check on the implementation; "
-         "open findings: KF-C11-td-field-names, KF-C11-td-class-name-collision, KF-C11-same-name-two-modules"),
+         "open findings: KF-C11-td-class-name-collision, KF-C11-same-name-two-modules"),
    technique="Lean 4 model + shape theorems; executable correspondence (text, imports, class names); direct evaluation of generated stubs"),
  "C14": dict(
    text=("Lean 4 theorems with set/dict iteration order, hash seeds and memory layout modelled as arbitrary permutation and duplication of "
